@@ -4,6 +4,7 @@ CONSTANTS
   Sample = 1
   BaseMod = 1
   BaseRem = 0
+  EditSet = "all"
   Heavy = FALSE
 INVARIANTS ValidTotal OnePassForms KindDiscipline
 CHECK_DEADLOCK FALSE
